@@ -194,6 +194,7 @@ theorem alloc_forall {a : Alloc} {T} (Q : Block → Prop) (req : Nat) (h : AInv 
     (hnew : ∀ (blocks : List Block) (p n size : Nat), (∀ x ∈ blocks, Q x) → 0 < n → size = n * a.cfg.poolGran p → p < a.cfg.poolCount →
       (newBlock { a with blocks := blocks } p (idealBlockSize { a with blocks := blocks } p size)).padN + n ≤
         (newBlock { a with blocks := blocks } p (idealBlockSize { a with blocks := blocks } p size)).areaSize →
+      size ≤ 2147483647 →
       Q (({ newBlock { a with blocks := blocks } p (idealBlockSize { a with blocks := blocks } p size) with
           searchStart := (newBlock { a with blocks := blocks } p (idealBlockSize { a with blocks := blocks } p size)).searchStart + n
           largest := (newBlock { a with blocks := blocks } p (idealBlockSize { a with blocks := blocks } p size)).largest - n }).markAllocated
@@ -206,9 +207,10 @@ theorem alloc_forall {a : Alloc} {T} (Q : Block → Prop) (req : Nat) (h : AInv 
   · exact hq
   · split
     · exact hq
-    · rename_i hs0 _
+    · rename_i hs0 hs1
       have hal := alignUp_mod req a.cfg.gran
-      generalize alignUp req a.cfg.gran = size at hs0 hal
+      generalize alignUp req a.cfg.gran = size at hs0 hs1 hal
+      have hsmax : size ≤ 2147483647 := by omega
       have hg := poolGran_pos h.wf (sizeToPoolId a.cfg size)
       have hdvd := sizeToPoolId_dvd a.cfg size hal
       have hsz := (ceil_mul_of_dvd size _ hg hdvd).symm
@@ -264,7 +266,7 @@ theorem alloc_forall {a : Alloc} {T} (Q : Block → Prop) (req : Nat) (h : AInv 
           rw [hx]
           have hbs := idealBlockSize_ge { a with blocks := (if (scanPass sel1 k a.blocks).2.isSome then scanPass sel1 k a.blocks
             else scanPass sel2 k (scanPass sel1 k a.blocks).1).1 } (sizeToPoolId a.cfg size) size h.wf.2
-          exact hnew _ _ k size hr2 hn hsz (sizeToPoolId_lt _ _) (newBlock_fit a.cfg h.wf _ k size _ hsz hbs)
+          exact hnew _ _ k size hr2 hn hsz (sizeToPoolId_lt _ _) (newBlock_fit a.cfg h.wf _ k size _ hsz hbs) hsmax
 
 
 
@@ -372,7 +374,7 @@ theorem alloc_amem {a : Alloc} {T} (req : Nat) (h : AInv a T) (hM : AMem a) : AM
   exact alloc_forall (MemB a.cfg) req h hM
     (fun b b' k _ _ hq ht => hq.tryAlloc_none ht)
     (fun b b' k idx _ hI _ hq ht => hq.commit hI.lenU ht)
-    (fun blocks p n size _ _ _ _ _ => memB_fresh a blocks p n size) x hx
+    (fun blocks p n size _ _ _ _ _ _ => memB_fresh a blocks p n size) x hx
 
 theorem release_amem {a : Alloc} {T} {s0 n0 : Nat} {b : Block} (h : AInv a T) (hM : AMem a) (hb : b ∈ a.blocks)
     (hS : T b.id b.pool s0 n0) : AMem (a.release b.id (s0 * a.cfg.poolGran b.pool)).1 := by
@@ -572,7 +574,7 @@ theorem alloc_mem_frame {a : Alloc} {T} (req : Nat) (h : AInv a T) {b : Block} (
   · intro y y' k idx _ _ _ hq ht e
     obtain ⟨f1, _⟩ := tryAlloc_fields ht
     rw [commit_mem, tryAlloc_mem ht]; exact hq (by rw [← f1]; simpa using e)
-  · intro blocks p n size _ _ _ _ _ e
+  · intro blocks p n size _ _ _ _ _ _ e
     exfalso
     have := h.fresh b hb
     simp [newBlock, Block.clear] at e
